@@ -66,7 +66,7 @@ def check_case(case):
     def viol(ob, what, c, got, exp):
         out["violations"].append(dict(
             obligation=ob % alg, what=what, signature=sig("BoolCFGLM", alg, what.split(":")[0], case["name"], sr),
-            replay=dict(desc, context=list(c) if c is not None else None, observed=repr(got), expected=repr(exp),
+            replay=dict(desc, context=list(c) if c is not None else None, observed=lmspec.short(got), expected=lmspec.short(exp),
                         case=common.enc(case))))
 
     real_heap = earley.LocatorMaxHeap
